@@ -51,11 +51,27 @@ def build(cat, arr, spec):
         return "Other:" + type(e).__name__, None
 
 
+def sym_sources(ann):
+    from jaxtyping import _array_types as at
+    return [d.elem for d in ann.dims if type(d) is at._SymbolicDim]
+
+
+def cat_dtypes(cats):
+    import jaxtyping
+    from jaxtyping import _array_types as at
+    out = {}
+    for c in cats:
+        d = getattr(jaxtyping, c).dtypes
+        out[c] = None if d is at._any_dtype else [x for x in d]
+    return out
+
+
 def show_memo(memo):
     single, variadic, pytree, args = memo
     s = ",".join("%s=%d" % (k, v) for k, v in single.items())
+    # same text as the model's show_memo; "P<n>" (number of structure names) is appended by callers that need it
     v = ",".join("%s=%s%s" % (k, "T" if b else "F", "(" + ",".join(str(int(x)) for x in sh) + ")") for k, (b, sh) in variadic.items())
-    return "S{%s} V{%s} P%d" % (s, v, len(pytree))
+    return "S{%s} V{%s}" % (s, v)
 
 
 class Duck:
@@ -122,7 +138,7 @@ def run_sessions(sessions):
         args = dict(sess.get("args", {}))
         args["boom"] = boom
 
-        def body(**kw):
+        def body(k, m, boom):
             for step in sess["steps"]:
                 arr_t, val = make_value(step)
                 b, ann = build(step.get("cat", "Float"), arr_t, step["dim"])
@@ -132,7 +148,7 @@ def run_sessions(sessions):
                 before_txt = show_memo(get_shape_memo())
                 v = do_check(ann, val)
                 after = [dict(m) for m in get_shape_memo()[:3]]
-                r = {"build": "ok", "verdict": v, "memo": show_memo(get_shape_memo()),
+                r = {"build": "ok", "verdict": v, "memo": show_memo(get_shape_memo()), "syms": sym_sources(ann),
                      "unchanged": (before == after and [list(x) for x in before] == [list(x) for x in after]),
                      "before": before_txt}
                 if v == "acc" and step.get("twice", True):
@@ -143,7 +159,7 @@ def run_sessions(sessions):
                 res.append(r)
 
         if sess.get("nocontext"):
-            body()
+            body(args.get("k"), args.get("m"), boom)
         else:
             f = jaxtyped(typechecker=None)(body)
             import warnings
@@ -165,7 +181,8 @@ def main():
                 b, ann = build("Float", np.ndarray, decode_spec(s))
                 res.append({"build": b, "dims": canon_dims(ann) if ann is not None else None})
         elif req["mode"] == "sessions":
-            res = run_sessions(req["sessions"])
+            cats = sorted({st.get("cat", "Float") for se in req["sessions"] for st in se["steps"]})
+            res = {"results": run_sessions(req["sessions"]), "cat_dtypes": cat_dtypes(cats)}
         else:
             raise KeyError(req["mode"])
     print(json.dumps(res))
